@@ -4,7 +4,7 @@ use crate::engine::*;
 use crate::gen;
 use crate::keys;
 use crate::proto::*;
-use crate::rt::layer_parse;
+use crate::rt::{layer_parse, parse_twice};
 use proptest::prelude::*;
 use serde::{Deserialize, Serialize};
 
@@ -134,13 +134,6 @@ impl Sub for KeyBinding {
       Err(_) => return Verdict::Discard,
     };
     let seed = s.seed();
-    // control under the right key
-    let km = keys::material(p, &seed);
-    let lk = km.lib().expect("valid key");
-    match layer_parse(p, s.layer, &lk, &t, s.footer.as_deref(), s.assertion()) {
-      Ok(o) if o.message().as_deref() == Some(s.msg.as_str()) => {}
-      _ => return Verdict::Discard,
-    }
     let alt = match alt_public(p, &seed, &c.alt) {
       Some(a) => a,
       None => return Verdict::Discard,
@@ -155,28 +148,59 @@ impl Sub for KeyBinding {
       KeyAlt::Degenerate => "degenerate",
       KeyAlt::RsaPool(_) => "rsa-pool",
     }));
-    cl.nontrivial(true);
-    let km2 = match KeyMaterial::new(p, None, &alt) {
-      Ok(k) => k,
-      Err(_) => return Verdict::Discard,
-    };
-    let lk2 = match km2.lib() {
-      Ok(k) => k,
-      Err(_) => {
-        cl.tag("rejected:key-constructor");
-        return Verdict::Pass; // failing to construct K' counts as rejection
-      }
-    };
-    match layer_parse(p, s.layer, &lk2, &t, s.footer.as_deref(), s.assertion()) {
-      Err(e) => {
-        cl.tag(format!("rejected:{}", e.variant));
-        Verdict::Pass
-      }
-      Ok(o) => {
-        vio!("C04:accepted-under-other-key:{}:{}", p.label(), s.layer.label();
-          "token produced under key {} was accepted under {} ({:?}) and returned {:?}", hex::encode(keys::key_bytes(p, &seed).1), hex::encode(&alt), c.alt, o.message());
+    let (f, a) = (s.footer.as_deref(), s.assertion());
+    let describe = |o: &crate::rt::LayerOut| o.message();
+    // (A) one parser object: control under K, then the same token under K' (two key objects)
+    let mut km = keys::material(p, &seed);
+    {
+      let lk = km.lib().expect("valid key");
+      let km2 = match KeyMaterial::new(p, None, &alt) {
+        Ok(k) => k,
+        Err(_) => return Verdict::Discard,
+      };
+      match km2.lib() {
+        Err(_) => {
+          cl.tag("rejected:key-constructor"); // failing to construct K' counts as rejection
+          // the control still has to hold
+          match layer_parse(p, s.layer, &lk, &t, f, a) {
+            Ok(o) if o.message().as_deref() == Some(s.msg.as_str()) => {}
+            _ => return Verdict::Discard,
+          }
+          cl.nontrivial(true);
+          return Verdict::Pass;
+        }
+        Ok(lk2) => {
+          let (r1, r2) = parse_twice(p, s.layer, (&t, &lk, f, a), (&t, &lk2, f, a));
+          match r1 {
+            Ok(o) if o.message().as_deref() == Some(s.msg.as_str()) => {}
+            _ => return Verdict::Discard,
+          }
+          cl.nontrivial(true);
+          match r2 {
+            Err(e) => cl.tag(format!("rejected:{}", e.variant)),
+            Ok(o) => vio!("C04:accepted-under-other-key:{}:{}", p.label(), s.layer.label();
+              "token produced under key {} was accepted under {} ({:?}) by the parser that had just accepted it under the right key; returned {:?}", hex::encode(keys::key_bytes(p, &seed).1), hex::encode(&alt), c.alt, describe(&o)),
+          }
+        }
       }
     }
+    // (B) one key object: after the control, its bytes are replaced in place by K' (same addresses)
+    {
+      let lk = km.lib().expect("valid key");
+      if layer_parse(p, s.layer, &lk, &t, f, a).is_err() {
+        return Verdict::Discard;
+      }
+    }
+    if km.replace_public_in_place(&alt) {
+      if let Ok(lk2) = km.lib() {
+        if let Ok(o) = layer_parse(p, s.layer, &lk2, &t, f, a) {
+          vio!("C04:accepted-under-key-replaced-in-place:{}:{}", p.label(), s.layer.label();
+            "after a successful parse the key object was overwritten in place with {} ({:?}); the token produced under {} was still accepted, returned {:?}", hex::encode(&alt), c.alt, hex::encode(keys::key_bytes(p, &seed).1), describe(&o));
+        }
+        cl.tag("in-place-replacement-checked");
+      }
+    }
+    Verdict::Pass
   }
 }
 
